@@ -3,6 +3,7 @@ package sim
 import (
 	"context"
 	"fmt"
+	"runtime/debug"
 	"time"
 
 	abci "github.com/cometbft/cometbft/abci/types"
@@ -262,7 +263,7 @@ func deliver(ctx sdk.Context, router *baseapp.MsgServiceRouter, gasLimit uint64,
 	cacheCtx = cacheCtx.WithEventManager(sdk.NewEventManager()).WithGasMeter(gm)
 	defer func() {
 		if r := recover(); r != nil {
-			res = Result{Class: PANIC, PanicVal: r, GasUsed: gm.GasConsumed(), GasLog: gm.Log}
+			res = Result{Class: PANIC, PanicVal: r, Stack: string(debug.Stack()), GasUsed: gm.GasConsumed(), GasLog: gm.Log}
 		}
 	}()
 	var resps []proto.Message
